@@ -5,6 +5,7 @@ import (
 	"strconv"
 	"strings"
 
+	"github.com/ThreeDotsLabs/watermill/components/forwarder"
 	"github.com/ThreeDotsLabs/watermill/message"
 
 	"wmverif/wh"
@@ -12,7 +13,7 @@ import (
 
 // hop is one operation of a heap program.
 type hop struct {
-	kind    byte // n z c a s g e u p
+	kind    byte // n z c a s g e u p w
 	i, j    int
 	s1, s2  string // uuid / key, value
 	payload []byte
@@ -22,7 +23,7 @@ func (o hop) tok() string {
 	switch o.kind {
 	case 'n', 'z':
 		return fmt.Sprintf("%c:%s:%s", o.kind, wh.HexS(o.s1), payloadTok(o.payload))
-	case 'c', 'a':
+	case 'c', 'a', 'w':
 		return fmt.Sprintf("%c:%d", o.kind, o.i)
 	case 's':
 		return fmt.Sprintf("s:%d:%s:%s", o.i, wh.HexS(o.s1), wh.HexS(o.s2))
@@ -70,7 +71,7 @@ func parseHop(s string) (hop, error) {
 	switch {
 	case (o.kind == 'n' || o.kind == 'z') && len(f) == 3:
 		o.s1, o.payload = str(f[1]), pay(f[2])
-	case (o.kind == 'c' || o.kind == 'a') && len(f) == 2:
+	case (o.kind == 'c' || o.kind == 'a' || o.kind == 'w') && len(f) == 2:
 		o.i = num(f[1])
 	case o.kind == 's' && len(f) == 4:
 		o.i, o.s1, o.s2 = num(f[1]), str(f[2]), str(f[3])
@@ -129,6 +130,15 @@ func runHeap(ops []hop) string {
 			m := objs[o.i]
 			objs = append(objs, &message.Message{UUID: m.UUID, Payload: m.Payload, Metadata: m.Metadata})
 			res = "+"
+		case 'w':
+			// through the forwarder envelope and back: what a decoder hands to a consumer
+			res = "!"
+			if w, err := forwarder.VerifWrapMessageInEnvelope("t", objs[o.i]); err == nil {
+				if _, u, err := forwarder.VerifUnwrapMessageFromEnvelope(w); err == nil {
+					objs = append(objs, u)
+					res = "+"
+				}
+			}
 		case 's':
 			res = setRes(objs[o.i], o.s1, o.s2)
 		case 'g':
@@ -201,7 +211,17 @@ func randomProgram(r *wh.Rng, maxLen, maxObjs int) []hop {
 			continue
 		}
 		i := r.Intn(objs)
-		switch x := r.Intn(20); {
+		switch x := r.Intn(22); {
+		case x == 20 && objs < maxObjs:
+			ops = append(ops, hop{kind: 'w', i: i})
+			objs++
+		case x == 21 && objs < maxObjs:
+			// a nil-metadata original, copied right away, the copy written
+			ops = append(ops, hop{kind: 'z', s1: genStr(r), payload: genPayload(r)}, hop{kind: 'c', i: objs})
+			objs += 2
+			if objs <= maxObjs {
+				ops = append(ops, hop{kind: 's', i: objs - 1, s1: heapKey(r), s2: heapVal(r)})
+			}
 		case x < 2 && objs < maxObjs:
 			ops = append(ops, hop{kind: 'n', s1: genStr(r), payload: genPayload(r)})
 			objs++
@@ -251,4 +271,44 @@ func enumHeap(out *wh.Out) {
 	heapCase(out, []hop{{kind: 'n', s1: "u"}, {kind: 'a', i: 0}, {kind: 'c', i: 1}, {kind: 's', i: 0, s1: "k", s2: "w"}, {kind: 'e', i: 0, j: 1}, {kind: 'e', i: 1, j: 2}}, "enum.copy_of_alias")
 	heapCase(out, []hop{{kind: 'z', s1: "u", payload: nil}, {kind: 'c', i: 0}, {kind: 'e', i: 0, j: 1}, {kind: 's', i: 1, s1: "k", s2: "v"}, {kind: 's', i: 0, s1: "k", s2: "v"}, {kind: 'e', i: 0, j: 1}}, "enum.copy_of_nil_metadata")
 	heapCase(out, nil, "enum.empty")
+	// "the copy owns a usable, independent map" for every kind of original: NewMessage (empty map), struct literal (nil map),
+	// Metadata reset to nil is the same object state as the literal, a decoded envelope with "metadata": null / {} / entries,
+	// a shallow copy of each; then Copy, then a write to the copy, a write to the original, and both read back
+	origins := map[string][]hop{
+		"new_empty":        {{kind: 'n', s1: "u", payload: []byte("p")}},
+		"new_entries":      {{kind: 'n', s1: "u"}, {kind: 's', i: 0, s1: "k", s2: "v"}},
+		"literal_nil":      {{kind: 'z', s1: "u", payload: []byte("p")}},
+		"literal_nil_bare": {{kind: 'z', s1: ""}},
+	}
+	for _, name := range []string{"new_empty", "new_entries", "literal_nil", "literal_nil_bare"} {
+		mk := origins[name]
+		for _, via := range []string{"direct", "decoded", "alias"} {
+			ops := append([]hop{}, mk...)
+			src := 0
+			switch via {
+			case "decoded":
+				ops = append(ops, hop{kind: 'w', i: 0})
+				src = 1
+			case "alias":
+				ops = append(ops, hop{kind: 'a', i: 0})
+				src = 1
+			}
+			cp := src + 1
+			for _, key := range []string{"k", "new", ""} {
+				for order := 0; order < 2; order++ {
+					p := append(append([]hop{}, ops...), hop{kind: 'c', i: src})
+					wc := hop{kind: 's', i: cp, s1: key, s2: "w"}
+					wo := hop{kind: 's', i: src, s1: key, s2: "o"}
+					if order == 0 {
+						p = append(p, wc, wo)
+					} else {
+						p = append(p, wo, wc)
+					}
+					p = append(p, hop{kind: 'g', i: cp, s1: key}, hop{kind: 'g', i: src, s1: key}, hop{kind: 'e', i: src, j: cp},
+						hop{kind: 'c', i: cp}, hop{kind: 's', i: cp + 1, s1: "k2", s2: "x"}, hop{kind: 'e', i: cp, j: cp + 1})
+					heapCase(out, p, "enum.copy_of_"+name+"_"+via)
+				}
+			}
+		}
+	}
 }
